@@ -191,6 +191,7 @@ func reflectStubs() map[string]StubFn {
 	both("Kind", func(c *CallCtx) { c.Return(BVC(64, uint64(reflectKind(unwrapRV(c.args[0]).T)))) })
 	both("IsValid", func(c *CallCtx) { c.Return(BoolC(unwrapRV(c.args[0]).T != nil)) })
 	both("CanSet", func(c *CallCtx) { c.Return(BoolC(unwrapRV(c.args[0]).Settable)) })
+	both("CanInterface", func(c *CallCtx) { c.Return(BoolC(unwrapRV(c.args[0]).T != nil)) }) // harness structs have exported fields only
 	both("CanAddr", func(c *CallCtx) { c.Return(BoolC(unwrapRV(c.args[0]).Loc != nil)) })
 	both("Type", func(c *CallCtx) {
 		r := unwrapRV(c.args[0])
